@@ -39,7 +39,6 @@ func c05Shared(lc resolve.Client, root, warm resolve.VersionKey, mk func(resolve
 		}
 		c05ResolveOnce(r, root)
 		n := vRaceReport()
-		vObserveInt("discipline violations", n)
 		vCover(true, "one Resolve call checked against the shared-state discipline")
 		vAssert(n == 0, "Resolve reads and writes state shared between concurrent calls only under its lock")
 		return
@@ -49,7 +48,6 @@ func c05Shared(lc resolve.Client, root, warm resolve.VersionKey, mk func(resolve
 		c05ResolveOnce(shared, warm)
 		vCover(true, "shared resolver warmed up by an earlier resolution")
 	}
-	vObserveInt("discipline violations", 0)
 	vCover(true, "one Resolve call checked against the shared-state discipline")
 	var wg sync.WaitGroup
 	for i := 0; i < 8; i++ {
